@@ -299,7 +299,7 @@ package index
 //@   let mwci, gerr := call[MultihashIndexSorted.get#0]
 //@   call[MultihashIndexSorted.get#0] assert by_the_keys_multihash [C03,C07]: ref(arg0) == ref(m) && ref(arg1) == ref(dmh)
 //@   call[multiWidthIndex.GetAll#0] assert same_key_and_callback [C03,C07]: arg1 == cid && arg2 == f
-//@   ensures unknown_code_is_not_found [C07]: derr == nil && gerr != nil ==> err == gerr
+//@   ensures unknown_code_is_not_found [C03,C07]: derr == nil && gerr != nil ==> err == gerr
 
 //@ func (*multiWidthIndex).GetAll
 //@   let d, derr := call[multihash.Decode#0]
